@@ -82,6 +82,7 @@ m('c19_catch_base', 'C19', H, "        except Exception as e:\n            # Che
 # ---- C20
 m('c20_release_twice', 'C20', H, "                        elif semaphore:\n                            semaphore.release()", "                        elif semaphore:\n                            semaphore.release()\n                            if semaphore_limit and semaphore_limit > 2: semaphore.release()", 'double release when limit>2')
 m('c20_revert_f13', 'C20', H, "            if semaphore is None or getattr(semaphore, '_loop', None) not in (None, asyncio.get_running_loop()):", "            if semaphore is None:", 'revert F13')
+m('c20_revert_f26', 'C20', H, "        return f'{cls.__module__}.{cls.__qualname__}.{base_name}'", "        return f'{cls.__name__}.{base_name}'", 'revert F26: class scope keyed by bare class name')
 m('c20_self_is_class', 'C20', H, "        instance_id = id(args[0])\n        return f'{instance_id}.{base_name}'", "        instance_id = id(type(args[0]))\n        return f'{instance_id}.{base_name}'", "self scope keyed by class: instances block each other")
 
 
